@@ -89,8 +89,8 @@ def subscribe(ctx, db, rid):
                     if n and ('awaiter::subscribe' in n[0]):
                         prevnull = (not n[1]); break
             bq = all_indices(tr, callee_is('cocls::mutex::build_queue'))
-            ret = [it for it in tr if it.k == 'return']
-            rv = ret[-1].get('const') if ret else None
+            rv = ret_bool(tr)
+            rv = None if rv is None else int(rv)
             if prevnull is None:
                 bad = bad or ('the previous head returned by the push is not tested', tr); continue
             if prevnull:
@@ -140,14 +140,20 @@ def unlock_once(ctx, db, rid):
             h = ho[0]; hev = tr[h]
             node = (hev.get('args') or [{}])[0].get('path')
             # the node is the head of _queue read before the unlinking write
-            wq = [i for i in all_indices(tr, lambda ev: ev.k == 'write' and ev.get('path') == 'this->_queue') if i < h]
-            d = next((it for it in tr[:h] if it.k == 'decl' and it.get('var') == node), None)
-            rdq = index_of(tr, lambda ev: ev is d) if d is not None else -1
-            if d is None or d.get('init') != 'this->_queue':
+            # writes of the FIFO head: plain assignments and std::exchange(_queue, x) (which also yields the old head)
+            def _qwrite(ev):
+                if ev.k == 'write' and ev.get('path') == 'this->_queue':
+                    return ev.get('rhs') or ''
+                if ev.k == 'call' and norm(ev.get('callee') or '') == 'std::exchange' and (ev.get('args') or [{}])[0].get('path') == 'this->_queue' and len(ev['args']) > 1:
+                    return ev['args'][1].get('path') or ''
+                return None
+            wq = [i for i in range(h) if _qwrite(tr[i]) is not None]
+            org, rdq = origin_in_trace(tr, h, node)
+            if org != 'this->_queue':
                 bad = bad or ('the waiter handed over is not the head of the private FIFO', tr)
             elif not wq:
                 bad = bad or ('the head is not unlinked from the FIFO before the hand-over (the same waiter would be granted again)', tr)
-            elif not (rdq < wq[-1] and tr[wq[-1]].get('rhs', '').endswith('->_next')):
+            elif not (rdq <= wq[-1] and _qwrite(tr[wq[-1]]).endswith('->_next')):
                 bad = bad or ('the FIFO head is not advanced to the next waiter before the hand-over', tr)
             if casok is False:
                 bq = [i for i in all_indices(tr, callee_is('cocls::mutex::build_queue')) if i < (rdq if rdq >= 0 else h)]
